@@ -280,31 +280,48 @@ theorem static_backlog_fair_started (c : WfqCfg ℚ) (hp : WFQ.Pos c) (t0 : ℚ)
 `Generated/Sched.lean` is rewritten by `py2lean` from the current `onl/scheduler/wfq.py`, `virtual_clock.py` before
 this file is compiled (the transmission delay of `Scheduler.send_packet` belongs to C12: `C12.send_delay_generated_eq_model`).  The model keeps the dicts as association lists with explicit `KeyError`s; the translated methods are
 *seen from the class of the packet in hand* (`GenSched.wfqObj` / `vcObj`: that class's dict entries as scalar fields, effects
-counted, the key of the stored `PriorityItem` recorded), and the `for i in self.active_set` loop folds over
-`GenSched.activeWeights`.  Over exact rationals. -/
+counted, the key of the stored `PriorityItem` recorded), and the loop of `update_vtime` — `for i in self.weights: if i in
+self.active_set: weight_sum += self.weights[i]`, the sum in *table order* — folds over `GenSched.weightTable c st` =
+`[(i in active_set, weights[i]) for i in weights]`, translating the membership test and the addition.  The model adds the
+weights of the active classes in ascending class order; over exact rationals the two sums are the same number
+(`GenSched.tableSum_eq_wSum`) when the table is a dict (`GenSched.KeysNodup c`: no class id is a key twice) and the model's
+`active_set` is strictly ascending, which it is in every reachable state (`wfq_active_ascending_reachable`). -/
+
+/-- **in every reachable state the model's `active_set` is strictly ascending** (the hypothesis `hs` of the two WFQ bridge
+theorems below) -/
+theorem wfq_active_ascending_reachable (c : WfqCfg ℚ) (t0 : ℚ) (as : List (StAct ℚ)) (s : WFQ.WState) (ins outs : List SPkt)
+    (h : runActs (WFQ.sched c) (WFQ.start t0) as = .ok (s, ins, outs)) : s.sch.active.Pairwise (· < ·) :=
+  (WFQ.run_winv c (runActs_run _ as _ _ _ _ h)).2.sorted
 
 /-- **`WFQ.put` as written in the source is the model's `WFQ.put`**: whenever the model accepts `put(p)` (every lookup
 hits) with new stamp state `st'` and stamp `F`, the translated method, run on the view of `st` from `p`'s class `k` (weight
 `w`), ends in the view of `st'`: same virtual time, `last_time = now`, `finish_times[k] = F`, `class_count[k]` one more, one
 `add_packet_to_queue`, one `active_set.add`, and one `store.put(PriorityItem((F, now), packet))`.  (A changed constant or
-operator in the stamp formula, `max` ↔ `min`, a swapped reset/update branch, a missing effect make this fail to compile.) -/
+operator in the stamp formula, `max` ↔ `min`, a swapped reset/update branch, a missing effect, a weight sum that is not the
+sum over the table entries whose class is active make this fail to compile.)  `hn`: the weight table is a dict; `hs`: see
+`wfq_active_ascending_reachable`. -/
 theorem wfq_put_generated_eq_model (c : WfqCfg ℚ) (st st' : WfqSt ℚ) (now : ℚ) (total : Int) (F : ℚ) (p : SPkt)
-    (e1 e2 e3 : Nat) (ps pa : ℚ) (h : WFQ.put c st now total p = .ok (st', F)) :
+    (e1 e2 e3 : Nat) (ps pa : ℚ) (hn : GenSched.KeysNodup c) (hs : st.active.Pairwise (· < ·))
+    (h : WFQ.put c st now total p = .ok (st', F)) :
     ∃ k w, lookup c.flow2class p.flow = some k ∧ lookup c.weights k = some w ∧
-      Gen.WFQ.put (GenSched.wfqObj c st k w e1 e2 e3 ps pa) now total p.size (GenSched.activeWeights c st) =
+      Gen.WFQ.put (GenSched.wfqObj c st k w e1 e2 e3 ps pa) now total p.size (GenSched.weightTable c st) =
         GenSched.wfqObj c st' k w (e1 + 1) (e2 + 1) (e3 + 1) F now :=
-  GenSched.wfq_put_eq c st st' now total F p e1 e2 e3 ps pa h
+  GenSched.wfq_put_eq c st st' now total F p e1 e2 e3 ps pa hn hs h
 
 /-- **`WFQ.update_vtime` / `reset_vtime` as written in the source are the model's `updateVtime` / `resetVtime`** (seen from
-any class `k`; for the reset, a class that has a weight). -/
-theorem wfq_vtime_generated_eq_model (c : WfqCfg ℚ) (st : WfqSt ℚ) (now : ℚ) (k : Nat) (w : ℚ) (e1 e2 e3 : Nat) (ps pa : ℚ) :
+any class `k`; for the reset, a class that has a weight).  The source adds the weights of the active classes in the key order
+of the weight table (`for i in self.weights: if i in self.active_set`), the model in ascending class order: the same
+rational whenever the table is a dict (`hn`) and the model's active list is strictly ascending (`hs`, every reachable state:
+`wfq_active_ascending_reachable`). -/
+theorem wfq_vtime_generated_eq_model (c : WfqCfg ℚ) (st : WfqSt ℚ) (now : ℚ) (k : Nat) (w : ℚ) (e1 e2 e3 : Nat) (ps pa : ℚ)
+    (hn : GenSched.KeysNodup c) (hs : st.active.Pairwise (· < ·)) :
     (∀ st1, WFQ.updateVtime c st now = .ok st1 →
-      Gen.WFQ.update_vtime (GenSched.wfqObj c st k w e1 e2 e3 ps pa) now (GenSched.activeWeights c st) =
+      Gen.WFQ.update_vtime (GenSched.wfqObj c st k w e1 e2 e3 ps pa) now (GenSched.weightTable c st) =
         GenSched.wfqObj c st1 k w e1 e2 e3 ps pa) ∧
     (lookup c.weights k = some w →
       Gen.WFQ.reset_vtime (GenSched.wfqObj c st k w e1 e2 e3 ps pa) =
         GenSched.wfqObj c (WFQ.resetVtime c st) k w e1 e2 e3 ps pa) :=
-  ⟨fun st1 h => GenSched.update_vtime_eq c st st1 now k w e1 e2 e3 ps pa h,
+  ⟨fun st1 h => GenSched.update_vtime_eq c st st1 now k w e1 e2 e3 ps pa hn hs h,
    fun hw => GenSched.reset_vtime_eq c st k w e1 e2 e3 ps pa hw⟩
 
 /-- **`VC.put` as written in the source is the model's `VC.put`**: whenever the model accepts `put(p)` with stamp `A`, the
@@ -418,7 +435,22 @@ example : vcSummary (runActs (VC.sched vcfg) (VC.start vcfg 0)
 /-- the bridge hypotheses are met: the model accepts `put` of a 2-byte packet of flow 1 (class 1, weight 2) at t = 0 into the
 empty WFQ scheduler with stamp 1, and the *translated* `WFQ.put`, run on the view from class 1, stores it under `(1, 0)` -/
 example : (match WFQ.put cfg WFQ.init0 0 0 ⟨2, 1, 2⟩ with | .ok (_, F) => some F | .error _ => none) = some 1 ∧
-    (Gen.WFQ.put (GenSched.wfqObj cfg WFQ.init0 1 2 0 0 0 0 0) 0 0 2 (GenSched.activeWeights cfg WFQ.init0)).put_stamp = 1 := by
+    (Gen.WFQ.put (GenSched.wfqObj cfg WFQ.init0 1 2 0 0 0 0 0) 0 0 2 (GenSched.weightTable cfg WFQ.init0)).put_stamp = 1 := by
+  decide +kernel
+
+/-- a weight table whose key order is not the ascending class order, with the non-integer weights 3/5, 11/10, 7/10 -/
+def tcfg : WfqCfg ℚ := { rate := 8, weights := [(2, 3 / 5), (0, 11 / 10), (1, 7 / 10)], flow2class := [(0, 0), (1, 1), (2, 2)] }
+
+/-- the hypotheses of `wfq_vtime_generated_eq_model` are met by `tcfg` and a state in which classes 0 and 2 are active
+(vtime 1, last update at t = 1): at t = 18/5 the *translated* `update_vtime` adds 3/5 (class 2, first in the table) and then
+11/10 (class 0), skips class 1, and ends at `1 + (18/5 - 1) / (17/10) = 43/17` — the model, adding 11/10 then 3/5, too -/
+example : GenSched.KeysNodup tcfg ∧ ([0, 2] : List Nat).Pairwise (· < ·) ∧
+    GenSched.weightTable tcfg { vtime := 1, lastTime := 1, active := [0, 2] } = [(true, 3 / 5), (true, 11 / 10), (false, 7 / 10)] ∧
+    (Gen.WFQ.update_vtime (GenSched.wfqObj tcfg { vtime := 1, lastTime := 1, active := [0, 2] } 0 (11 / 10) 0 0 0 0 0) (18 / 5)
+      (GenSched.weightTable tcfg { vtime := 1, lastTime := 1, active := [0, 2] })).vtime = 43 / 17 ∧
+    (match WFQ.updateVtime tcfg { vtime := 1, lastTime := 1, active := [0, 2] } (18 / 5) with
+      | .ok st1 => some st1.vtime | .error _ => none) = some (43 / 17) := by
+  unfold GenSched.KeysNodup
   decide +kernel
 
 /-- the translated `VC.put` on the entries of class 1 of `vcfg` (vtick 1/2) at t = 0: stamp `max(0, 0) + 1/2` -/
